@@ -439,6 +439,10 @@ static rc::Gen<std::vector<LD>> gen_vector(int nt, int n, bool allow_zero, int m
                         else if (mode == 2) v[(size_t)ax] = std::ldexp(v[(size_t)ax], -deg);                               // near-degenerate
                         else if (mode == 3 && allow_zero) { for (auto& x : v) x = 0; }                                     // zero vector
                         else if (mode == 4) v[(size_t)ax] = std::signbit(v[(size_t)ax]) ? -(LD)0 : (LD)0;                  // a signed-zero component
+                        else if (mode == 5 || mode == 6) {                                                                 // nearly unit length at absolute scale one: |v| = 1 +- 2^-j
+                          LD len = 0; for (int i = 0; i < n; i++) len += v[(size_t)i] * v[(size_t)i]; len = std::sqrt(len);
+                          if (len > 0) { const LD f = 1 + (mode == 5 ? 1 : -1) * std::ldexp((LD)1, -(8 + deg)); for (int i = 0; i < n; i++) v[(size_t)i] = round_to(nt, v[(size_t)i] / len * f); return v; }
+                        }
                         for (auto& x : v) x = std::ldexp(x, k);
                         return v;
                       });
